@@ -142,6 +142,21 @@ def run(prog, R):
              f"operand kinds: {sorted(names)[:6]}… ({len(names)})" if not bad else
              f"a postfix form is applied to a completed {bad}: `-a[0]` / `-f(x)` would index or call the negated expression instead of negating the element / result")
     R.floor("call edges into postfix forms", npost, 4)
+    # ---- C05.4 which node a keyword / punctuation token becomes a child of: consumed while the innermost open marker
+    # is the caller's (the statement node handed in) or a locally started one; compared with the frozen table
+    ntp, moved = 0, []
+    for e in json.load(open(os.path.join(VERIF, "spec", "token_parent.json"))):
+        have = G.token_parent.get((e["fn"], e["kind"]))
+        if have is None:
+            continue            # the token is no longer consumed by this function (refactoring): nothing to compare
+        ntp += 1
+        if have != [e["parent"]]:
+            moved.append((short(e["fn"]), e["kind"], e["parent"], have))
+    for fn_, k_, was, now in moved:
+        R.ob("C05.4-token-parent", f"{fn_}:{k_}", False, prog.body("oq3_parser::" + fn_).at if prog.body("oq3_parser::" + fn_) else "",
+             f"{k_} used to be consumed under a marker that was {was} and is now consumed under {now}: the token became a child of a different node (e.g. `else` inside the nested if), so the typed accessors of both nodes see the wrong constituents")
+    R.ob("C05.4-token-parent", "all-pairs", not moved, "", f"{ntp} (grammar function, token) pairs compared with the frozen table")
+    R.floor("token-parent pairs", ntp, 150)
     import roles
     roles.check(prog, R, "C05.3-ROLE-positional")
     # ---- C05.4 one node per application: a node opened around an already parsed operand (`lhs.precede(p)`: binary,
